@@ -4034,3 +4034,105 @@ func copyHelperReadsToEnd(c *Ctx, rule string) {
 	}
 	c.Check(n > 0, rule, "copy-with-callback:no-length-limit", p.Pos(fn.Pos()), "the source is copied until it ends", "tools.CopyWithCallback not analysed")
 }
+
+// responseMatchedByOid (C09, C06, C02): a batch response may list objects in any order. The local name and the
+// destination path of the transfer built for a response entry are taken from the queue's record for THAT entry's
+// OID (q.transfers[o.Oid]) — never from the request by position, which would store object X's verified bytes under
+// object Y's name.
+func responseMatchedByOid(c *Ctx, rule string) {
+	p := c.P
+	fn := p.Fn("tq", "(*TransferQueue).enqueueAndCollectRetriesFor")
+	if fn == nil {
+		c.Missing(rule, "(*tq.TransferQueue).enqueueAndCollectRetriesFor", "not found")
+		return
+	}
+	n := 0
+	for _, ci := range CallsIn(fn, "tq.newTransfer") {
+		a := CallArgs(ci.Common())
+		if len(a) < 3 {
+			continue
+		}
+		n++
+		good := true
+		for _, arg := range a[1:3] {
+			okArg := false
+			if tn, _, base, ok := FieldOf(arg); ok && strings.HasSuffix(tn, "objectTuple") {
+				if fc, _, ok := CallResult(base); ok && strings.HasSuffix(CalleeName(fc.Common()), ".First") {
+					recv := Unwrap(fc.Call.Args[0])
+					var lk *ssa.Lookup
+					switch x := recv.(type) {
+					case *ssa.Lookup:
+						lk = x
+					case *ssa.Extract:
+						lk, _ = x.Tuple.(*ssa.Lookup)
+					}
+					if lk != nil {
+						if _, f, b2, ok := FieldOf(lk.Index); ok && f == "Oid" && SameVar(b2, a[0]) {
+							okArg = true
+						}
+					}
+				}
+			}
+			if !okArg {
+				good = false
+			}
+		}
+		c.Check(good, rule, "batch-response:matched-by-oid", p.InstrPos(ci), "name and path of a transfer come from the queue's record for the response entry's own OID",
+			"the transfer built for a batch response entry takes its local name or destination path from somewhere other than the queue's record for that entry's OID (e.g. the request by position): with a server that orders its response differently, verified bytes of one object are stored under another object's name")
+	}
+	c.AtLeast(rule, "transfers built from response entries", n, 1)
+}
+
+// verifyUsesOnlyVerifyAction (C10, C18): the verify request carries the headers of the verify action and nothing
+// from any other action: an Authorization header issued for the upload href (a storage host) must not travel to
+// the verify href.
+func verifyUsesOnlyVerifyAction(c *Ctx, rule string) {
+	p := c.P
+	fn := p.Fn("tq", "verifyUpload")
+	if fn == nil {
+		c.Missing(rule, "tq.verifyUpload", "not found")
+		return
+	}
+	n := 0
+	for _, f := range WithAnon(fn) {
+		for _, ci := range CallsIn(f, "(*tq.Transfer).Rel", "(tq.ActionSet).Get") {
+			a := CallArgs(ci.Common())
+			n++
+			s, ok := ConstString(a[len(a)-1])
+			c.Check(ok && s == "verify", rule, "verify:only-the-verify-action#"+itoa(n), p.InstrPos(ci), "verifyUpload looks up the verify action only",
+				"verifyUpload consults an action other than `verify`: headers the server issued for the upload (storage) href, such as Authorization, are sent to the verify href on another host or port")
+		}
+	}
+	c.AtLeast(rule, "action lookups in verifyUpload", n, 1)
+}
+
+// fetchPathsLastValueWins (C11): lfs.fetchinclude / lfs.fetchexclude are single-valued: the value from Git's own
+// configuration replaces the one from .lfsconfig. They are read with Get (last value), not GetAll — merging all
+// values keeps the repository's patterns in force beside the user's.
+func fetchPathsLastValueWins(c *Ctx, rule string) {
+	p := c.P
+	n := 0
+	for _, name := range []string{"(*Configuration).FetchIncludePaths", "(*Configuration).FetchExcludePaths"} {
+		fn := p.Fn("config", name)
+		if fn == nil {
+			c.Missing(rule, "config."+name, "not found")
+			continue
+		}
+		n++
+		bad := false
+		for f := range staticReach(p, fn) {
+			if f.Pkg == nil || !strings.HasSuffix(f.Pkg.Pkg.Path(), "/config") {
+				continue
+			}
+			if f != fn && !strings.Contains(strings.ToLower(f.Name()), "fetch") && f.Parent() != fn {
+				continue
+			}
+			for range CallsIn(f, "(config.Environment).GetAll", "(*config.GitFetcher).GetAll", "(*config.environment).GetAll") {
+				bad = true
+			}
+		}
+		c.Check(!bad, rule, "fetch-paths:last-value-wins:"+strings.TrimPrefix(name, "(*Configuration)."), p.Pos(fn.Pos()), "the option is read as a single value (the last one wins)",
+			name+" merges all values of the option: patterns from a repository's .lfsconfig stay in force although the user set the option in Git's own configuration")
+	}
+	c.AtLeast(rule, "fetch path options examined", n, 2)
+}
